@@ -1,6 +1,7 @@
 From Coq Require Import List Arith ZArith Bool.
 Import ListNotations.
 From UJ Require Import Obs.Progress Obs.Notify Obs.NotifyProofs.
+From UJ Require Engine.Engine Obs.EngineTrace.
 Open Scope Z_scope.
 
 Theorem C15_wellformed :
@@ -52,3 +53,24 @@ Theorem C15_composite_forwards :
        map MEnter (seq 0 (length a)) ++ MEnterRaised (length a) :: map MExit (rev (seq 0 (length a)))).
 Proof. exact composite_forwards. Qed.
 Print Assumptions C15_composite_forwards.
+
+(** The hypothesis [trace_ok] of the theorems above is what the engine provides: for every graph, worker count,
+    failing set, queue discipline and interleaving, the Start/End events of a finished run of the engine model
+    ([Engine.v]; no interrupt while the pool is being started - finding F6) are a well-formed trace for every
+    plan whose call ids are the nodes of the executed graph ... *)
+Theorem C15_engine_provides_trace_ok :
+  forall (c : Engine.cfg) (s : Engine.st) (p : plan),
+  Engine.cfg_ok c -> Engine.reachable c s -> Engine.intr s <> Some Engine.ISpawn -> Engine.final s ->
+  map fst p = Engine.nodes (Engine.g c) ->
+  trace_ok p (rev (EngineTrace.to_eev (Engine.hist s))).
+Proof. exact EngineTrace.engine_trace_ok. Qed.
+Print Assumptions C15_engine_provides_trace_ok.
+
+(** ... and in a run that returns normally every node of the graph was started (the premise of [C15_success_counts]). *)
+Theorem C15_engine_success_all_started :
+  forall (c : Engine.cfg) (s : Engine.st),
+  Engine.cfg_ok c -> Engine.acyclic (Engine.g c) -> Engine.reachable c s -> Engine.final s ->
+  Engine.result s = Some Engine.Returned ->
+  forall n : nat, In n (Engine.nodes (Engine.g c)) -> In n (starts (rev (EngineTrace.to_eev (Engine.hist s)))).
+Proof. exact EngineTrace.engine_success_all_started. Qed.
+Print Assumptions C15_engine_success_all_started.
